@@ -152,19 +152,23 @@ theorem peekNth_agree (n : Nat) : Agrees (In.peekNth n) := by
     exact ⟨by rw [h.same n, getD_append_left _ _ _ hn], h, rfl⟩
   · trivial
 
-/-- `skip` drops the same character on both sides — provided the buffered side has a character in
-its buffer (every `skip` of the scanner follows a look-ahead request; on an empty ring the real
-`pop_front` silently does nothing) -/
-theorem skip_agree' (i j : In) (h : SimIn i j) (hne : j.buf ≠ []) : AgreeR j (In.skip i) (In.skip j) := by
+/-- `skip` drops the same character on both sides (on an empty ring the model of the buffered input
+stops: the `Input` contract demands a look-ahead request before every consumption) -/
+theorem skip_agree : Agrees In.skip := by
+  intro i j h
   unfold In.skip
   simp only [h.ki, h.kj]
-  refine ⟨rfl, ⟨rfl, rfl, ?_⟩, rfl⟩
-  intro n
-  show i.iter.tail.getD n '\x00' = (j.buf.tail ++ j.iter).getD n '\x00'
-  rw [getD_tail, h.same (n + 1)]
   cases hb : j.buf with
-  | nil => exact absurd hb hne
-  | cons b r => simp [List.getD_eq_getElem?_getD]
+  | nil => trivial
+  | cons b r =>
+    refine ⟨rfl, ⟨rfl, rfl, ?_⟩, rfl⟩
+    intro n
+    show i.iter.tail.getD n '\x00' = (r ++ j.iter).getD n '\x00'
+    rw [getD_tail, h.same (n + 1), hb]
+    simp [List.getD_eq_getElem?_getD]
+
+theorem skip_agree' (i j : In) (h : SimIn i j) (_hne : j.buf ≠ []) : AgreeR j (In.skip i) (In.skip j) :=
+  skip_agree i j h
 
 theorem skipN_agree (n : Nat) : Agrees (In.skipN n) := by
   intro i j h
@@ -526,10 +530,14 @@ theorem lookCh_step (i j : In) (h : SimIn i j) :
 
 theorem skip_step (i j : In) (h : SimIn i j) (hne : j.buf ≠ []) :
     ∃ j2, In.skip j = .ok ((), j2) ∧ SimIn { i with iter := i.iter.tail } j2 ∧ j2.cap = j.cap := by
-  have := skip_agree' i j h hne
+  have := skip_agree i j h
   unfold In.skip at this ⊢
-  simp only [h.ki, h.kj, AgreeR] at this ⊢
-  exact ⟨_, rfl, this.2.1, rfl⟩
+  simp only [h.ki, h.kj] at this ⊢
+  cases hb : j.buf with
+  | nil => exact absurd hb hne
+  | cons b r =>
+    simp only [hb, AgreeR] at this
+    exact ⟨_, rfl, this.2.1, rfl⟩
 
 theorem headD_ne_nul {l : Str} {c : Char} (h : l.headD '\x00' = c) (hc : c ≠ '\x00') : ∃ r, l = c :: r := by
   cases l with
